@@ -81,7 +81,8 @@ type vfWorld struct {
 	watch      *vfWatcher
 	variant    string
 	cryptoSeed uint64
-	panicProp  string // property a handler panic is attributed to in this run (default C19; C13/C14 under store/IdP faults)
+	c08Loaded  []string // C08: entries of the authenticated-e-mails file version currently loaded by the proxy
+	panicProp  string   // property a handler panic is attributed to in this run (default C19; C13/C14 under store/IdP faults)
 }
 
 func vfNewWorld(t *testing.T, prop, tier string, tape *vfTape) *vfWorld {
